@@ -13,7 +13,6 @@ mod script;
 mod sessions;
 mod setops;
 mod shrink;
-#[cfg(feature = "threads")]
 mod threads;
 mod truth;
 mod val;
@@ -461,6 +460,7 @@ fn main() {
         "gen" => cmd_gen(&a),
         #[cfg(feature = "threads")]
         "threads" => threads::cmd_threads(&a.opts),
+        "miri" => threads::cmd_std(&a.opts),
         _ => {
             eprintln!("usage: sim run --property Cxx --tier quick|thorough [--seed N] [--runs N] [--threads N] | replay <file> | loghash | gen | threads");
             2
